@@ -174,8 +174,10 @@ class ProcessExecutor:
         # Avoid race condition of a process finishing after we have
         # consumed the result_queue by fetching process statuses
         # before checking for process completion.
+        # (Iterate over a copy: after an interrupt, the consumer thread of
+        # an earlier call may still be running and removing entries.)
         dead_process_futures = [
-            future for future, process in self._running_id_to_future_and_process.values()
+            future for future, process in list(self._running_id_to_future_and_process.values())
             if not process.is_alive()
         ]
 
@@ -191,8 +193,11 @@ class ProcessExecutor:
                 # self._result_queue.get()
                 inner_timeout_seconds = 0
 
-                future, _ = self._running_id_to_future_and_process[future_id]
-                del self._running_id_to_future_and_process[future_id]
+                running = self._running_id_to_future_and_process.pop(future_id, None)
+                if running is None:
+                    # The future is no longer running (e.g. it was stopped).
+                    continue
+                future, _ = running
                 if not future.done:
                     if isinstance(result_or_ex, BaseException):
                         future.set_exception(result_or_ex)
@@ -215,7 +220,7 @@ class ProcessExecutor:
             if future.done:
                 continue
             future.set_exception(TaskDiedError())
-            del self._running_id_to_future_and_process[future.id]
+            self._running_id_to_future_and_process.pop(future.id, None)
 
     def wait(self, futures: Sequence[Future], *, timeout_seconds: Optional[float]) -> tuple[list[Future], list[Future]]:
         """Wait up to timeout_seconds or until at least one of the
